@@ -270,6 +270,8 @@ func init() {
 			runMAPEQ(c, r, "MAPEQ", ef)
 			r.Count("MAPEQ functions scanned", len(ef))
 			runF2I(c, r, "F2I", c.fnsNamed(r, "jsonata.evalRange"))
+			ng := runNEGFOLD(c, r, "NEGFOLD")
+			r.RequireMin("NEGFOLD success returns of NegationNode.optimize", ng, 1)
 			r.Assume("numbers entering evaluation (decoded JSON, number literals) are finite; FIN shows finiteness is preserved")
 		},
 	})
@@ -405,6 +407,8 @@ func init() {
 		Run: func(c *Ctx, r *Result) {
 			runSORT(c, c.G, r, "SORT", c.REval, c.Lib, 3)
 			runMERGE(c, r, "MERGE")
+			st := runSORTTYPES(c, r, "SORTTYPES")
+			r.RequireMin("SORTTYPES obligations in buildSortInfo", st, 3)
 			// the sort machinery works only on state of the same evaluation: every write (and every
 			// hand-over of memory to an unreviewed library function, e.g. an object pool) inside the
 			// functions that implement order-by and $sort targets fresh memory
@@ -798,8 +802,10 @@ func init() {
 			r.RequireMin("ACYC reflective stores into data containers under Eval", ac, 7)
 			zr := runZERO(c, r, "ZERO", libFuncsIn(c, c.REval), c.REval)
 			r.RequireMin("ZERO synthesised zero values under Eval", zr, 1)
+			// lt panics on a number and a string: the sort-term type record keeps them apart
+			runSORTTYPES(c, r, "SORTTYPES")
 			nt := runNILTYPE(c, r, "NILTYPE", libFuncsIn(c, c.REval), c.REval)
-			r.RequireMin("NILTYPE method calls on reflect.TypeOf results under Eval", nt, 2)
+			r.RequireMin("NILTYPE method calls on reflect.TypeOf results under Eval", nt, 1)
 			r.Assume("user-defined JSONata functions are not unboundedly recursive (excluded by the property)")
 			r.Assume("Go values handed to Eval are acyclic (JSON-decoded data); jtypes.Resolve follows pointer chains")
 			r.Assume("runes in a DecimalFormat are valid (utf8.RuneLen >= 1), as updateDecimalFormat enforces for user-supplied options")
@@ -1023,6 +1029,9 @@ func init() {
 			if ng := c.fn("jsonata.newGoCallable"); ng != nil && e.inR[ng] {
 				r.LoseAnchor("W: newGoCallable is reachable from Eval (goCallables would no longer all be shared)")
 			}
+			// the transform works on a deep copy: a shallow or partial copy lets its updates reach
+			// the caller's document, so the next Eval of the same input sees another value
+			runTransformClone(c, r, e, "W")
 			runCLOCK(c, r, "CLOCK")
 			runNOGO(c, r, "NOGO")
 			r.Assume(wAssume1)
@@ -1035,7 +1044,8 @@ func init() {
 		Rule:        commonRule,
 		Fixtures:    []string{"w", "lock"},
 		Run: func(c *Ctx, r *Result) {
-			runW(c, c.G, r, "W", evalRootCfg(c))
+			ev := runW(c, c.G, r, "W", evalRootCfg(c))
+			runTransformClone(c, r, ev, "W")
 			runW(c, c.G, r, "W-compile", compileRootCfg(c))
 			runW(c, c.G, r, "W-register", pkgRegisterRootCfg(c))
 			runLOCK(c, r, "LOCK")
@@ -1113,6 +1123,8 @@ func init() {
 			r.RequireMin("CALLSEQ invocations of the Go function", cs, 1)
 			zr := runZERO(c, r, "ZERO", libFuncsIn(c, c.REval), c.REval)
 			r.RequireMin("ZERO reflect.Zero sites under Eval", zr, 1)
+			ap := runARGPOS(c, r, "ARGPOS")
+			r.RequireMin("ARGPOS argument-type errors in the validateArgTypes methods", ap, 2)
 			r.Assume(wAssume1)
 		},
 	})
